@@ -253,3 +253,10 @@ Lemma pot_sum_z_shape :
   (forall z c, evalR (env_of [z; c]) pot_sum_z_term = z * c) /\
   pot_sum_z_guard = [("trxn.token[i].s->type == " ++ (if Z.eqb species_type_AQ 0 then "0" else "?") ++ " || trxn.token[i].s == s_hplus || trxn.token[i].s == s_eminus")%string].
 Proof. split; [exact pot_sum_z_term_form | vm_compute; reflexivity]. Qed.
+
+(* calc_all_g (integrate.cpp): the cache that records which charge numbers have already been integrated must be PER SURFACE:
+   declared (or cleared) inside the loop over the SURFACE_CB unknowns, and consulted inside the inner loop over the species.
+   (regenerated loop structure: depths = number of enclosing loops) *)
+Definition dl_cache_per_surface_ok : bool :=
+  ((calc_all_g_cache_decl_loop_depth =? 1)%Z || calc_all_g_cache_cleared_in_surface_loop) &&
+  (calc_all_g_cache_lookup_loop_depth =? 2)%Z && (calc_all_g_cache_count =? 1)%Z.
